@@ -3,6 +3,7 @@ module verifsim
 go 1.26.8
 
 require (
+	github.com/anishathalye/porcupine v1.3.0
 	github.com/atomix/atomix/api v1.1.0
 	github.com/atomix/atomix/runtime v1.1.2
 	github.com/google/uuid v1.3.0
